@@ -46,6 +46,15 @@ def main(argv):
         ctx = report.Ctx(prop, tier, repo)
         mod = importlib.import_module('sa.rules.%s' % prop.lower())
         explanation = mod.run(ctx)
+        if tier == 'thorough' and not replay and not os.environ.get('PYX_NO_SELFTEST'):
+            from sa import selftest
+            st = ctx.guard(selftest.rule, ctx)
+            if st and st['problems']:
+                ctx.analysis_errors.append('checker self-test: %d variant(s) did not behave as expected: %s'
+                                           % (len(st['problems']), [p_['id'] + ':' + p_['outcome'] for p_ in st['problems']]))
+            explanation += ('  Thorough tier: checker self-test on scratch copies (%s variants incl. confirmed seeded mutations: %s fired, %s silent, '
+                            '%s not applicable to this tree).' % ((st or {}).get('variants'), (st or {}).get('fired'), (st or {}).get('silent'),
+                                                                (st or {}).get('not_applicable')))
         if replay:
             with open(replay) as f:
                 want = json.load(f)
